@@ -380,7 +380,9 @@ def check_C07(tier, seed, t0):
 def check_C08(tier, seed, t0):
     return wire_check('C08', tier, seed, t0, STD_ASSUME)
 def check_C09(tier, seed, t0):
-    return wire_check('C09', tier, seed, t0, STD_ASSUME)
+    bv, n = big_property_check('C09', seed, tier)
+    return wire_check('C09', tier, seed, t0, STD_ASSUME + ["12.48in driver: per-controller reset / init / power tracking on its real traces + correspondence with Big/Model.v on the power projection (theorems: C15)"],
+                      extra_viol=bv, extra_cov=dict(big_ops_judged=n))
 def check_C17(tier, seed, t0):
     return wire_check('C17', tier, seed, t0, STD_ASSUME)
 def check_C18(tier, seed, t0):
@@ -392,7 +394,10 @@ def check_C06(tier, seed, t0):
                       "Properties/C06w.v: for epd4in2 (x < 256), epd1in02, epd2in7, epd2in7b the window theorems hold for ALL aligned in-panel windows, all buffers, every idle controller state (universally quantified x y w h), not only the alphabet's windows"],
                       extra_files=['Properties/C06w.v'])
 def check_C05(tier, seed, t0):
-    return wire_check('C05', tier, seed, t0, STD_ASSUME + ["real time is abstracted to poll counts (virtual clock of the mocks)"])
+    bv, n = big_property_check('C05', seed, tier)
+    return wire_check('C05', tier, seed, t0, STD_ASSUME + ["real time is abstracted to poll counts (virtual clock of the mocks)",
+                      "12.48in driver: wait loops / per-controller busy tracking on its real traces + correspondence with Big/Model.v on the busy projection"],
+                      extra_viol=bv, extra_cov=dict(big_ops_judged=n))
 
 def check_C11(tier, seed, t0):
     return wire_check('C11', tier, seed, t0, STD_ASSUME + ["virtual clock: delays are the DelayNs calls the mocks record; real time is outside the model",
@@ -713,6 +718,141 @@ def big_oracle(script_text, real_text):
                         if blocks.get(c) != exp:
                             bad('partial-window-block', "chip %s window %s: sent %s, intersection needs %s" % (c, wn, blocks.get(c), exp))
     return viol, nops
+
+# ---- the 12.48in driver under C05 / C09 (it is not one of the 27 trait drivers: its own harness, model and oracles)
+BIG_CHIPS = ('m1', 's1', 'm2', 's2')
+
+def big_events(lines):
+    """trace lines of one op -> events with the chip selection resolved:
+       ('cmd', chips, byte) ('data', chips, n) ('poll', chip, busy) ('sleep200',) ('rst', pair, level) ('other', line)"""
+    pins = {}
+    ev = []
+    for l in lines:
+        t = l.split(' ')
+        if t[0] == 'N':
+            pins[t[1]] = int(t[2])
+            if t[1].endswith('_rst'):
+                ev.append(('rst', t[1][:4], int(t[2])))
+        elif t[0] == 'W':
+            sel = tuple(c for c in BIG_CHIPS if pins.get(c + '_cs') == 0)
+            if pins.get('m1s1_dc') == 0 and int(t[1]) == 1 and len(t) > 4:
+                ev.append(('cmd', sel, int(t[4][:2], 16)))
+            else:
+                ev.append(('data', sel, int(t[1])))
+        elif t[0] == 'PN':
+            ev.append(('poll', t[1][:2], t[3] == '1'))
+        elif t[0] == 'T' and t[1] == 'm' and t[2] == '200':
+            ev.append(('sleep200',))
+        else:
+            ev.append(('other', l))
+    return ev
+
+def big_project(lines, kind):
+    out = []
+    for e in big_events(lines):
+        if kind == 'busy':
+            if e[0] in ('poll', 'sleep200'):
+                out.append(e)
+            elif e[0] == 'cmd' and e[2] in (0x02, 0x04, 0x12, 0x10, 0x13):
+                out.append(e)
+        elif kind == 'power':
+            if e[0] == 'rst' or e[0] == 'cmd':
+                out.append(e)
+    return out
+
+def big_state_oracle(script_text, real_text):
+    """C05 / C09 clauses evaluated on the REAL traces of the 12.48in driver, per controller:
+       C05: a wait loop ends only on a round in which every polled chip read idle (the begin_* calls are documented as
+            non-blocking, so traffic after them is the caller's responsibility and is not judged);
+       C09: every refresh trigger reaches a chip that was initialised (resolution programmed) since its last reset and
+            powered on since its last reset / power-off / deep sleep."""
+    v5, v9 = [], []
+    R = corr.parse_out(real_text)
+    heads, opsrc = {}, {}
+    cur = None
+    for line in script_text.split('\n'):
+        if line.startswith('case '):
+            cur = line.split(' ')[1]; heads[cur] = line; opsrc[cur] = []
+        elif cur and line and line != 'end':
+            opsrc[cur].append(line)
+    nops = 0
+    for cid, ops in R.items():
+        busy = {c: False for c in BIG_CHIPS}
+        inited = {c: False for c in BIG_CHIPS}
+        powered = {c: False for c in BIG_CHIPS}
+        api_init = False      # the caller followed the documented protocol: init since the last reset / hibernate
+        for (i, name, lines, res) in ops:
+            nops += 1
+            if name in ('reset', 'hibernate'):
+                api_init = False
+            elif name == 'init' and res is not None and res.startswith('OK'):
+                api_init = True
+            def bad(lst, clause, detail):
+                lst.append(dict(panel='epd12in48b_v2', site=name, clause=clause, detail="%s: %s" % (heads.get(cid, cid), detail),
+                                replay=dict(kind='trace', panel='epd12in48b_v2', feat='v3', op_index=i,
+                                            script='\n'.join([heads.get(cid, 'case x')] + opsrc.get(cid, []) + ['end']))))
+            ev = big_events(lines)
+            k = 0
+            while k < len(ev):
+                e = ev[k]
+                if e[0] == 'rst' and e[2] == 0:
+                    for c in (('m1', 's1') if e[1] == 'm1s1' else ('m2', 's2')):
+                        inited[c] = powered[c] = busy[c] = False
+                elif e[0] == 'poll':
+                    # one round of polls
+                    rnd = []
+                    while k < len(ev) and ev[k][0] == 'poll':
+                        rnd.append(ev[k]); busy[ev[k][1]] = ev[k][2]; k += 1
+                    anybusy = any(b for (_, c, b) in rnd)
+                    nxt = ev[k] if k < len(ev) else None
+                    if anybusy and name not in ('get_busy', 'is_busy') and not (nxt and nxt[0] == 'sleep200'):
+                        bad(v5, 'wait-returns-while-busy', "chips %s read busy in the last poll round of a wait" % [c for (_, c, b) in rnd if b])
+                    continue
+                elif e[0] == 'cmd':
+                    sel, c0 = e[1], e[2]
+                    for c in sel:
+                        if c0 == 0x61:
+                            inited[c] = True
+                        elif c0 == 0x04:
+                            powered[c] = True
+                        elif c0 in (0x02, 0x07):
+                            powered[c] = False
+                        elif c0 == 0x12 and api_init:
+                            if not powered[c]:
+                                bad(v9, 'refresh-unpowered', "chip %s" % c)
+                            if not inited[c]:
+                                bad(v9, 'refresh-uninitialised', "chip %s" % c)
+                k += 1
+            if res is None or not res.startswith('OK'):
+                break
+    return v5, v9, nops
+
+def big_property_check(prop, seed, tier):
+    """correspondence of the 12.48in driver on the property's projection + the state oracle -> violations, stats"""
+    import subprocess, glob as _g
+    from panels import BIG
+    kind = {'C05': 'busy', 'C09': 'power'}[prop]
+    viol = []
+    hexe, err = corr.build_harness('v3')
+    mexe, log = corr.build_model()
+    if not hexe or not mexe:
+        return [dict(panel='epd12in48b_v2', site='build', clause='build-failed', no_input=True, detail=(err + log)[-800:], replay=dict(kind='build'))], 0
+    suites = ['basic', 'chain', 'env', 'rand']
+    tag = 'big' + prop.lower()
+    total, mism, counts, errs = corr.run_suites([BIG], 'v3', suites, seed, hexe, mexe, tag=tag)
+    nor = 0
+    for sp in sorted(_g.glob(os.path.join(vlib.WORK, '%s-epd12in48b_v2-v3-*.script' % tag))):
+        r = subprocess.run([hexe, 'run', sp], stdout=subprocess.PIPE, stderr=subprocess.PIPE, text=True, env=dict(corr.ENV, EPD_FEAT='v3'))
+        v5, v9, n = big_state_oracle(open(sp).read(), r.stdout)
+        viol += v5 if prop == 'C05' else v9
+        nor += n
+    for m in mism:
+        if big_project(m.real, kind) != big_project(m.model, kind):
+            viol.append(dict(panel='epd12in48b_v2', site=m.opname, clause='correspondence-' + kind, no_input=True,
+                             detail="12.48in model and implementation differ on the %s projection (real %s, model %s)" % (kind, m.rres, m.mres),
+                             replay=dict(kind='correspondence', panel='epd12in48b_v2', case=m.cid, op_index=m.opidx, op=m.opname, script=m.script)))
+    viol.sort(key=lambda v: 1 if v.get('no_input') else 0)
+    return viol, nor
 
 def check_C15(tier, seed, t0):
     import subprocess
